@@ -60,3 +60,78 @@ prop("C05",
      "READY polled only while the done-sender is held), S2/S3/S5 on the in-poll release loop, and U2 = S4(b)+S7 (FnRef::drop sends its own id, result discarded).",
      "MIR path-sensitive typestate dataflow (receiver wake-up state) + provenance",
      "tokio's poll_recv waker contract (trusted; Ready(Some) registers no waker)")
+
+import rules_build as B
+
+K0 = ("K0",)
+
+prop("C01",
+     [("R1", B.R1, ("K0", "K3"), {}), ("R2", B.R2, ("K0",), {}), ("R3", B.R3, ("K0",), {}), ("R4", B.R4, ("K0",), {}),
+      ("R5", B.R5, ("K0", "K3"), {}),
+      ("S1", S.S1, K01, {}), ("S2", S.S2, K01, {}), ("S3", S.S3, K01, {}), ("S4", S.S4, K01, {}), ("S5", S.S5, K01, {})],
+     ("K0", "K1", "K3"),
+     "Decides R1 (the conflict predicate compares A.read x B.write, A.write x B.read, A.write x B.write for the two endpoints of the "
+     "inserted edge and the insertion is taken iff one of them holds - truth table over the path conditions), R2 (every guard between the "
+     "pair enumeration and the insertion is id identity, the per-iteration seen flag, the matching has_path_connecting or the predicate), "
+     "R3 (augmentation dominates count calculation and structure copies on the same graph), R4 (every raw node/edge copied unconditionally "
+     "with its weight), R5 (access tables of R/W/()/fn_meta delegation agree), plus S1-S5 of the scheduler.",
+     "MIR taint/provenance of access declarations into comparison sites + symbolic path-condition enumeration of the insertion guard + dominance",
+     "that the pairwise scan + has_path_connecting joins every conflicting pair for every DAG (functional correctness of the scan), and the schedule-level behaviour")
+
+prop("C06",
+     [("W1", B.W1, K0, {}), ("W2", B.W2, K0, {}), ("R1", B.R1, K0, {}), ("S2", S.S2, K01, {}), ("S3", S.S3, K01, {})],
+     K01,
+     "Decides W1 (the only edge-adding call on the user's graph reachable from build() is update_edge with the constant Edge::Data, "
+     "no other node/edge-set mutator), W2 (the comparison pairs feeding its guard contain no read x read pair and no same-function pair; "
+     "expected-zero rule with a seeded positive control in the self-test), the guard being exactly the disjunction of the comparisons (R1 truth table), "
+     "and W3 = S2/S3 (every successor reaching count 0 is queued in the same visit; the release walk has no early exit).",
+     "MIR who-may-call inventory over the call graph of build() + provenance of comparison operands",
+     "the quiescence statement over runs (whenever idle, everything runnable was started)")
+
+prop("C11",
+     [("R3", B.R3, K0, {}), ("W1", B.W1, K0, {}), ("B3", B.B3, K0, {}), ("R2", B.R2, K0, {}), ("R4", B.R4, K0, {}),
+      ("R1", B.R1, K0, {})],
+     K0,
+     "Decides B1 (phase order: ranks, then augmentation, then counts and structure copies, all on the same graph which becomes FnGraph.graph), "
+     "B2 (no add_node/remove/clear/retain reaches the user's Dag from build()), B3 (the only added edge is Edge::Data, control dependent on "
+     "has_path_connecting(G,a,b) == false for the same (a,b): an existing edge is never overwritten), B4 (structure copies complete), B5 = R1/R2.",
+     "MIR dominance + who-may-call inventory + path-condition enumeration",
+     "acyclicity of the augmented graph, unreachability of the two expect()s, and that every conflicting pair is joined by a path (semantic invariant of the rank-sorted scan)")
+
+prop("C12",
+     [("D1", B.D1, K0, {}), ("D2", B.D2, K0, {}), ("D3", B.D3, K0, {}), ("D4", B.D4, K0, {})],
+     K0,
+     "Decides D1 (ids listed in ascending id order and sorted by a stable sort whose comparator is ranks[first] vs ranks[second], ascending), "
+     "D2 (the Data edge goes from the outer element to an element at a later position of the same sorted list), D3 (no hash-ordered container, "
+     "RNG, clock, thread, env or address-derived value reachable from build()), D4 (FnGraph == compares node count, each edge's source, target and "
+     "weight, and each function, pairwise over unfiltered zipped sequences).",
+     "MIR expression reconstruction of the comparator/list construction + iterator-chain inventory + callee/type inventory",
+     "non-redundancy of Data edges and the exact tie-break outcome as functions of the input")
+
+prop("C13",
+     [("K", B.C13_rules, K0, {})],
+     K0,
+     "Decides K1 (ranks start as Rank(0) x node_count), K2 (the work queue is seeded with exactly the parent-less nodes), K3 (every store to "
+     "ranks[child] is ranks[parent]+1 - constant 1 through Rank: Add<usize>, whose body adds the fields - merged by max or guarded by candidate > existing), "
+     "K4 (a raised child is re-queued), K5 (the calculation is generic over an unbounded F, never reads an edge weight, and FnGraph.ranks is its "
+     "unchanged result computed before augmentation).",
+     "MIR expression reconstruction + provenance of the rank vector + control dependence",
+     "that the relaxation reaches the longest-path fixpoint for every insertion order (paper argument)")
+
+prop("C16",
+     [("E", B.C16_rules, ("K0", "K4"), {})],
+     ("K0", "K4"),
+     "Decides E1 (add_logic_edge/add_contains_edge are exactly one daggy::Dag::update_edge(from, to, const Logic|Contains) with the result returned "
+     "unchanged), E2 (batch forms call the matching single form per element in array order through a short-circuiting try_for_each and return the first error), "
+     "E3 (no other builder method mutates edges).",
+     "MIR call inventory with resolved callees + argument provenance",
+     "daggy's cycle test itself (update_edge: must_check_for_cycle + has_path_connecting), trusted")
+
+prop("C18",
+     [("C18.loops", B.C18_loops, ("K0", "K4"), {})],
+     ("K0", "K4"),
+     "Decides, over the crate-local call graph of build(): no recursion; every natural loop is collection-bounded or a worklist loop; and every push onto a "
+     "popped work queue is control dependent on a progress guard (strict improvement of a per-node value stored in the same guarded region, a test-and-set "
+     "visited flag, or a counter reaching zero after its decrement), which bounds re-queues per node by the number of distinct values (<= n).",
+     "MIR loop inventory (natural loops, worklist classification) + control dependence of queue pushes",
+     "constants; the dependency calls' own complexity (has_path_connecting, update_edge, stable sort assumed polynomial)")
